@@ -56,7 +56,7 @@ theorem step_dead (s : Sched) (op : SOp) (hk : KInv s) (t : Nat) (h : Dead s t) 
       | ok res =>
         obtain ⟨g, so, ms, fr0⟩ := res
         simp only [hts] at hs
-        obtain ⟨_, _, _, t4⟩ := taskSchedule_plain s.mgr g b hint so ms fr0 hk.plain hts
+        obtain ⟨_, _, _, t4⟩ := taskSchedule_plain s.mgr g b hint so ms fr0 hk.pr hts
         obtain ⟨rec, hr, hd⟩ := h.1
         cases so with
         | none =>
@@ -140,7 +140,7 @@ theorem step_dead (s : Sched) (op : SOp) (hk : KInv s) (t : Nat) (h : Dead s t) 
           | ok res2 =>
             obtain ⟨g, o⟩ := res2
             simp only [htr] at hs
-            obtain ⟨_, _, _, t4⟩ := taskReport_plain s.mgr g x r v hint _ e o hk.plain hk.runok htr
+            obtain ⟨_, _, _, t4⟩ := taskReport_plain s.mgr g x r v hint _ e o hk.pr hk.runok htr
             have hnotin : t ∉ unpromotedSys g.systems := by
               rcases t4 with h4 | ⟨_, _, c3⟩
               · rw [h4]; exact h.2
